@@ -298,6 +298,7 @@ def gen_world(rng, f):
         "meta": {"min_ar": min_ar, "max_ar": max_ar, "flavour": flavour,
                  "has_kw": has_kw, "has_kw2": has_kw2, "mixed": mixed, "kw_flavour": kw_flavour,
                  "kwheavy": kwheavy, "kw_names": kw_names if kwheavy else None,
+                 "alias_values": rng.random() < f["p_alias"] if f.get("p_alias") else False,
                  "self": (rng.choice(["func", "ovld"]) if rng.random() < f["p_self"] else None)},
     }
     return spec
@@ -308,7 +309,8 @@ def gen_value(rng, spec, fl, depth=0):
     if fl == "int":
         return ["int", rng.choice([0, 1, 2, 3, 4, 0, 1, 2, True, False, 1.0, 2.0, 0.0])]
     if fl == "type":
-        return ["T", rng.choice(names + ["object", "int"])]
+        extra = ["list[int]", "dict[str, int]"] if spec["meta"].get("alias_values") else []
+        return ["T", rng.choice(names + ["object", "int"] + extra)]
     kids = []
     if depth < 2 and rng.random() < 0.3:
         kids = [gen_value(rng, spec, "cls", depth + 1) for _ in range(rng.randint(1, 2))]
